@@ -22,6 +22,9 @@ card/CardStr.vos card/CardStr.vok card/CardStr.required_vos: card/CardStr.v base
 card/Ops.vo card/Ops.glob card/Ops.v.beautified card/Ops.required_vo: card/Ops.v card/Tree.vo
 card/Ops.vio: card/Ops.v card/Tree.vio
 card/Ops.vos card/Ops.vok card/Ops.required_vos: card/Ops.v card/Tree.vos
+card/OpsFacts.vo card/OpsFacts.glob card/OpsFacts.v.beautified card/OpsFacts.required_vo: card/OpsFacts.v base/PyStr.vo base/PyStrFacts.vo card/CardStr.vo card/Path.vo card/PathFacts.vo base/Json.vo card/Tree.vo card/TreeFacts.vo card/Ops.vo card/Render.vo card/Spec.vo
+card/OpsFacts.vio: card/OpsFacts.v base/PyStr.vio base/PyStrFacts.vio card/CardStr.vio card/Path.vio card/PathFacts.vio base/Json.vio card/Tree.vio card/TreeFacts.vio card/Ops.vio card/Render.vio card/Spec.vio
+card/OpsFacts.vos card/OpsFacts.vok card/OpsFacts.required_vos: card/OpsFacts.v base/PyStr.vos base/PyStrFacts.vos card/CardStr.vos card/Path.vos card/PathFacts.vos base/Json.vos card/Tree.vos card/TreeFacts.vos card/Ops.vos card/Render.vos card/Spec.vos
 card/Path.vo card/Path.glob card/Path.v.beautified card/Path.required_vo: card/Path.v card/CardStr.vo
 card/Path.vio: card/Path.v card/CardStr.vio
 card/Path.vos card/Path.vok card/Path.required_vos: card/Path.v card/CardStr.vos
@@ -34,6 +37,9 @@ card/Render.vos card/Render.vok card/Render.required_vos: card/Render.v card/Tre
 card/Show.vo card/Show.glob card/Show.v.beautified card/Show.required_vo: card/Show.v card/Ops.vo card/Render.vo
 card/Show.vio: card/Show.v card/Ops.vio card/Render.vio
 card/Show.vos card/Show.vok card/Show.required_vos: card/Show.v card/Ops.vos card/Render.vos
+card/Spec.vo card/Spec.glob card/Spec.v.beautified card/Spec.required_vo: card/Spec.v card/Ops.vo card/Render.vo
+card/Spec.vio: card/Spec.v card/Ops.vio card/Render.vio
+card/Spec.vos card/Spec.vok card/Spec.required_vos: card/Spec.v card/Ops.vos card/Render.vos
 card/Tree.vo card/Tree.glob card/Tree.v.beautified card/Tree.required_vo: card/Tree.v base/Json.vo card/Path.vo
 card/Tree.vio: card/Tree.v base/Json.vio card/Path.vio
 card/Tree.vos card/Tree.vok card/Tree.required_vos: card/Tree.v base/Json.vos card/Path.vos
